@@ -202,8 +202,9 @@ func NewCluster(
 	c.wg.Add(1)
 	go func() {
 		defer c.wg.Done()
-		c.ready(ReadyTimeout)
-		c.run()
+		if c.ready(ReadyTimeout) {
+			c.run()
+		}
 	}()
 
 	return c, nil
@@ -601,7 +602,9 @@ func (c *Cluster) run() {
 	}()
 }
 
-func (c *Cluster) ready(timeout time.Duration) {
+// ready waits for consensus to be ready and returns true when it is. Otherwise
+// it triggers a Shutdown and returns false.
+func (c *Cluster) ready(timeout time.Duration) bool {
 	ctx, span := trace.StartSpan(c.ctx, "cluster/ready")
 	defer span.End()
 
@@ -626,15 +629,17 @@ This might be due to one or several causes:
     same version of IPFS-cluster.
 **************************************************
 `)
-		c.Shutdown(ctx)
-		return
+		// Shutdown() waits for this goroutine to finish: it cannot be
+		// called from it.
+		go c.Shutdown(ctx)
+		return false
 	case <-c.consensus.Ready(ctx):
 		// Consensus ready means the state is up to date. Every item
 		// in the state that is not pinned will appear as PinError so
 		// we can proceed to recover all of those in the tracker.
 		c.RecoverAllLocal(ctx)
 	case <-c.ctx.Done():
-		return
+		return false
 	}
 
 	// Cluster is ready.
@@ -642,8 +647,8 @@ This might be due to one or several causes:
 	peers, err := c.consensus.Peers(ctx)
 	if err != nil {
 		logger.Error(err)
-		c.Shutdown(ctx)
-		return
+		go c.Shutdown(ctx)
+		return false
 	}
 
 	logger.Info("Cluster Peers (without including ourselves):")
@@ -661,6 +666,7 @@ This might be due to one or several causes:
 	// for this goroutine to finish.
 	close(c.readyCh)
 	logger.Info("** IPFS Cluster is READY **")
+	return true
 }
 
 // isReady returns whether Ready() has been signaled.
